@@ -14,7 +14,53 @@ CHUNK = 40
 
 
 def jobs(tier):
-    return [(tier, c) for c in defs.chunks(defs.space(tier, "main"), CHUNK)]
+    return [("samename", tier)] + [(tier, c) for c in defs.chunks(defs.space(tier, "main"), CHUNK)]
+
+
+SAMENAME_BODIES = ["uint8 a;", "uint16 a;", "uint8 a; uint32 b;", "uint32 a; uint8 b;", "uint8 n; char d[n];", "uint24 a;", "char a[3];", "uint16 a : 4; uint16 b : 12;"]
+
+
+def samename(tier) -> JobResult:
+    """Two structures of one cstruct object that nest *different* inline structs of the same name (identical generated source for the
+    outer reader): each compiled reader must behave like its own interpreted reader."""
+    import itertools
+
+    from dissect.cstruct import cstruct
+
+    res = JobResult()
+    pats = list(sc.values.raw_patterns(48))
+    for b1, b2 in itertools.permutations(SAMENAME_BODIES, 2):
+        text = f"struct A {{ uint8 x; struct hdr {{ {b1} }} h; uint8 y; }};\nstruct B {{ uint8 x; struct hdr {{ {b2} }} h; uint8 y; }};"
+        for endian in "<>":
+            for align in (False, True):
+                cs = {}
+                try:
+                    for compiled in (False, True):
+                        cs[compiled] = cstruct(endian=endian)
+                        cs[compiled].load(text, compiled=compiled, align=align)
+                except Exception as e:  # noqa: BLE001
+                    res.violations.append(Violation("samename:load-raises", "samename:load-raises", {"samename": [b1, b2], "endian": endian, "align": align}, f"{text!r}: {e!r}"))
+                    continue
+                res.transitions += 2
+                for nm in "AB":
+                    TI, TC = getattr(cs[False], nm), getattr(cs[True], nm)
+                    case = {"samename": [b1, b2], "which": nm, "endian": endian, "align": align}
+                    if sc.layout_sig(TI)[:3] != sc.layout_sig(TC)[:3]:
+                        res.violations.append(Violation("samename:layout", "samename:layout", case, f"{text!r} struct {nm}: {sc.layout_sig(TI)} vs {sc.layout_sig(TC)}"))
+                    for d in pats:
+                        a, b = sc.parse(TI, d), sc.parse(TC, d)
+                        res.evaluations += 1
+                        res.states += 1
+                        res.transitions += 2
+                        res.traces += 1
+                        if TC.__compiled__:
+                            res.nontrivial += 1
+                        if a.ok != b.ok or (a.ok and (not same(a.value, b.value) or a.tell != b.tell or a.sizes != b.sizes)):
+                            res.violations.append(Violation("samename:readers-differ", "samename:readers-differ", case,
+                                f"{text!r} struct {nm} {endian} align={align} in={d[:16].hex()}: interp={(a.value, a.tell, a.sizes) if a.ok else a.sig} compiled={(b.value, b.tell, b.sizes) if b.ok else b.sig}"))
+                            break
+    res.samples.append({"samename": "struct A { uint8 x; struct hdr {B1} h; uint8 y; }; struct B { uint8 x; struct hdr {B2} h; uint8 y; } for all ordered pairs of 8 bodies"})
+    return res
 
 
 def ptr_widths(names, tier):
@@ -112,6 +158,8 @@ def check_case(names, endian, align, ptr, res: JobResult, tier="quick", cuts=Tru
 
 
 def run(job) -> JobResult:
+    if job[0] == "samename":
+        return samename(job[1])
     res = JobResult()
     tier, chunk = job
     for names in chunk:
@@ -123,6 +171,8 @@ def run(job) -> JobResult:
 
 
 def replay(case):
+    if "samename" in case:
+        return [v for v in samename("thorough").violations if v.case == case]
     res = JobResult()
     check_case(tuple(case["atoms"]), case["endian"], case["align"], case.get("ptr"), res, "thorough")
     return res.violations
